@@ -134,3 +134,10 @@ Example c11_wf_needed_mutex :
   /\ is_open (tr_of bad_cfg_acquire_late two_writers [0%nat; 1%nat]) 0%nat = true
   /\ is_open (tr_of bad_cfg_acquire_late two_writers [0%nat; 1%nat]) 1%nat = true.
 Proof. exact bad_acquire_late. Qed.
+
+(* the classification obligation covers aliases: an allow list without `shell` is rejected, one
+   with it is accepted *)
+Example c11_alias_must_be_classified :
+  wf_cfg bad_cfg_alias_forgotten = false /\ requires_lock bad_cfg_alias_forgotten s_shell = false
+  /\ wf_cfg good_cfg_allow_list = true.
+Proof. exact alias_forgotten. Qed.
